@@ -43,7 +43,7 @@ COMPONENTS = {
     "stub_or_harness": ["FaultyReader/FaultyWriter proxies", "frame wrappers", "reference interpreter (expected mode per operation)", "spec/value/fault generators"],
 }
 FAULT_KINDS = ["writer_exception", "writer_cancel", "reader_exception", "reader_cancel", "invalid_object", "hostile_bytes_error"]
-PROBES = ["mode_kept_by_a_subclass_property", "bytes_compared_with_reference", "wire_differs_otherwise", "packet_write_method", "fault_at_first_call", "fault_at_last_call", "fault_in_nested_frame", "fault_three_frames_deep",
+PROBES = ["documented_parameter_names", "mode_kept_by_a_subclass_property", "bytes_compared_with_reference", "wire_differs_otherwise", "packet_write_method", "fault_at_first_call", "fault_at_last_call", "fault_in_nested_frame", "fault_three_frames_deep",
           "entry_mode_true_on_class_with_chunked", "fault_on_add_byte", "fault_on_next_chunk", "unaligned", "aligned",
           "serialize_failed_value_skipped", "nested_frames_checked"]
 
@@ -68,20 +68,23 @@ def install_frames(te):
     def wrap(cls, cls_name, which, mode_attr):
         orig = cls.__dict__[which].__func__
 
+        # transparent: the call reaches the generated method in the form it was made (positional or by keyword)
         if which == "serialize":
-            def wrapper(writer, data):
+            def wrapper(*args, **kwargs):
+                writer = args[0] if args else kwargs.get("writer")
                 frame = [cls_name, getattr(writer, mode_attr), None, writer.sim_n if hasattr(writer, "sim_n") else 0]
                 te.c15_frames.append(frame)
                 try:
-                    return orig(writer, data)
+                    return orig(*args, **kwargs)
                 finally:
                     frame[2] = getattr(writer, mode_attr)
         else:
-            def wrapper(reader):
+            def wrapper(*args, **kwargs):
+                reader = args[0] if args else kwargs.get("reader")
                 frame = [cls_name, getattr(reader, mode_attr), None, reader.sim_n if hasattr(reader, "sim_n") else 0]
                 te.c15_frames.append(frame)
                 try:
-                    return orig(reader)
+                    return orig(*args, **kwargs)
                 finally:
                     frame[2] = getattr(reader, mode_attr)
         setattr(cls, which, staticmethod(wrapper))
@@ -117,9 +120,13 @@ class Runner:
             # packets are also written through their generated write() method (every other fault index, and the
             # fault-free run that starts in sanitising mode)
             via_write = hasattr(payload, "write") and (fault_at % 2 == 1 if fault_at is not None else bool(entry))
+            by_keyword = (fault_at if fault_at is not None else 3 * int(bool(entry))) % 4 == 3
             if via_write:
                 self.res.count("probe.packet_write_method")
-                fn = lambda: payload.write(proxy)                   # noqa
+                fn = (lambda: payload.write(writer=proxy)) if by_keyword else (lambda: payload.write(proxy))      # noqa
+            elif by_keyword:
+                self.res.count("probe.documented_parameter_names")
+                fn = lambda: cls.serialize(writer=proxy, data=payload)      # noqa
             else:
                 fn = lambda: cls.serialize(proxy, payload)          # noqa
             mode = lambda: bool(proxy.string_sanitization_mode)  # noqa
@@ -129,7 +136,11 @@ class Runner:
                 self.res.count("probe.mode_kept_by_a_subclass_property")
             proxy = te.FaultyReader(payload, fault_at, exc, cap=400_000, detached=detached)
             proxy.chunked_reading_mode = entry
-            fn = lambda: cls.deserialize(proxy)                  # noqa
+            if (fault_at if fault_at is not None else 3 * int(bool(entry))) % 4 == 3:
+                self.res.count("probe.documented_parameter_names")
+                fn = lambda: cls.deserialize(reader=proxy)           # noqa
+            else:
+                fn = lambda: cls.deserialize(proxy)                  # noqa
             mode = lambda: bool(proxy.chunked_reading_mode)      # noqa
         raised = None
         try:
